@@ -12,7 +12,9 @@
 // that follows returns immediately. Threads not registered with a controller (index -1) pass
 // through schedule points untouched, and with no controller installed the hook pointer is null.
 #pragma once
+#include <algorithm>
 #include <atomic>
+#include <cerrno>
 #include <chrono>
 #include <condition_variable>
 #include <cstdint>
@@ -39,7 +41,19 @@ public:
     uint32_t                     wold{0};
     bool                         grant{false};
     bool                         abort{false};
+    // futex emulation: the thread is inside atomic::wait(), blocked in the (emulated) FUTEX_WAIT on faddr; it becomes
+    // enabled only when a FUTEX_WAKE on faddr has been issued since it blocked
+    bool                         fblk{false};
+    const void*                  faddr{nullptr};
+    bool                         fwoken{false};
   };
+
+  // When set (by the harness, before launch), a schedule point before atomic<uint32_t>::wait(old) is ALWAYS enabled:
+  // the granted thread enters the real std::atomic::wait; if the value still equals [old] it ends up in the harness'
+  // interposed futex syscall (futex_wait below), where it parks as "blocked in wait" (label "fx_wake") until some
+  // thread really issues notify_one/notify_all on that address (futex_wake below). A changed value without a notify
+  // does NOT wake it - exactly the atomic-wait contract, so lost wake-ups are observable.
+  bool futex_emulation{false};
 
   // called on the stepping thread right after it passed a schedule point (before it touches memory)
   std::function<void(int)> after_grant;
@@ -114,8 +128,17 @@ public:
   void finish() {
     {
       std::unique_lock<std::mutex> l(m_lock);
+      std::vector<const void*> poked;
       for (auto& s : m_slots)
-        if (s.st == PARKED) s.abort = true;
+        if (s.st == PARKED) {
+          s.abort = true;
+          // a thread blocked inside atomic::wait() leaves it only when the word differs from what it waits for: flip the
+          // top bit of each waited word ONCE (two waiters on one word must not undo each other's flip)
+          if (s.fblk && std::find(poked.begin(), poked.end(), s.faddr) == poked.end()) {
+            poked.push_back(s.faddr);
+            const_cast<std::atomic<uint32_t>*>(static_cast<const std::atomic<uint32_t>*>(s.faddr))->fetch_xor(0x80000000u);
+          }
+        }
       m_cv.notify_all();
     }
     for (auto& t : m_threads)
@@ -139,6 +162,7 @@ private:
   bool enabled_locked(int t) {
     auto& s = m_slots[t];
     if (s.st != PARKED) return false;
+    if (s.fblk) return s.fwoken;
     if (extra_enabled && !extra_enabled(t, s.label)) return false;
     if (s.waddr != nullptr) {
       // label prefix selects what the point waits for: "m:" a std::mutex that must be free (some
@@ -152,9 +176,69 @@ private:
       }
       if (s.label[0] == 'b' && s.label[1] == ':')
         return reinterpret_cast<const std::atomic<bool>*>(s.waddr)->load(std::memory_order_seq_cst) != (s.wold != 0);
+      if (futex_emulation) return true;
       if (s.waddr->load(std::memory_order_seq_cst) == s.wold) return false;
     }
     return true;
+  }
+
+public:
+  // called from the harness' interposed syscall(SYS_futex, addr, FUTEX_WAIT, val): returns false if the call is not
+  // ours to emulate (no controller / unregistered thread / emulation off)
+  static bool futex_wait(const void* addr, uint32_t val, long& ret) {
+    Controller* c = current();
+    int         i = my_index();
+    if (c == nullptr || i < 0 || !c->futex_emulation) return false;
+    if (static_cast<const std::atomic<uint32_t>*>(addr)->load(std::memory_order_seq_cst) != val) {
+      errno = EAGAIN;
+      ret   = -1;
+      return true;
+    }
+    c->park_futex(i, addr);
+    ret = 0;
+    return true;
+  }
+  static bool futex_wake(const void* addr, long& ret) {
+    Controller* c = current();
+    int         i = my_index();
+    if (c == nullptr || i < 0 || !c->futex_emulation) return false;
+    std::unique_lock<std::mutex> l(c->m_lock);
+    ret = 0;
+    for (auto& s : c->m_slots)
+      if (s.fblk && s.faddr == addr && !s.fwoken) {
+        s.fwoken = true;
+        ret++;
+      }
+    return true;
+  }
+  bool futex_blocked(int t) {
+    std::unique_lock<std::mutex> l(m_lock);
+    return m_slots[t].st == PARKED && m_slots[t].fblk && !m_slots[t].fwoken;
+  }
+
+private:
+  // the frames above us (std::atomic::wait, __platform_wait) are noexcept: at case end the thread cannot be unwound
+  // from here; finish() changes the waited word instead, the wait returns and the next schedule point throws
+  void park_futex(int i, const void* addr) {
+    {
+      std::unique_lock<std::mutex> l(m_lock);
+      auto& s  = m_slots[i];
+      s.label  = "fx_wake";
+      s.waddr  = nullptr;
+      s.fblk   = true;
+      s.faddr  = addr;
+      s.fwoken = false;
+      s.st     = PARKED;
+      m_cv.notify_all();
+      m_cv.wait(l, [&] { return s.grant || s.abort; });
+      s.fblk = false;
+      if (s.abort) {
+        s.st = RUNNING;
+        return;
+      }
+      s.grant = false;
+    }
+    if (after_grant) after_grant(i);
   }
 
   static void hook(const char* label, const void* addr, uint32_t old) {
